@@ -596,9 +596,9 @@ class Machine(object):
         elif op == ">>":
             if not b.is_const():
                 raise Unsupported("shift by a non-constant")
-            lo, _ = a.rng(d.box)
-            if lo < 0:
-                raise Unsupported("right shift of a possibly negative value")
+            # shr is floor division by 2^k: for a negative left operand that is the
+            # arithmetic shift every supported compiler performs (implementation-defined
+            # before C++20, mandated since) -- trusted assumption, see DESIGN 0.3
             r = d.shr(a, b.c)
         elif op in ("/", "%"):
             if a.is_const() and b.is_const() and b.c:
